@@ -11,6 +11,7 @@ CONSTANTS
   AuctionImpl = "intended"
   Resolution = "locked"
   MaxRounds = 2
+  ErrKinds <- ErrKindsOne
 INVARIANTS TypeOKC11 FailureIsolated
 CONSTRAINT RoundBound
 CONSTRAINT NoLane2
